@@ -432,3 +432,119 @@ Proof.
     specialize (Hc _ eq_refl). unfold vt_cursor in Hc. injection Hc as Hx Hy. injection Hp as <-.
     unfold vt_cursor. rewrite H2, H1, V1, V2. destruct V3 as (_ & (V4 & V5) & _). rewrite V4. subst. reflexivity.
 Qed.
+
+(* ------------------------------------------------------------------ absolute moves *)
+Definition abs_t (t : vt) (col row : option Z) : vt :=
+  let t1 := match row with Some r => vt_goto t (vx t) r | None => t end in
+  match col with Some k => vt_goto t1 k (vy t1) | None => t1 end.
+Definition tr_abs (W H : Z) (tr : option (Z * Z)) (col row : option Z) : option (Z * Z) :=
+  match tr with
+  | Some (tx, ty) => Some (clampW W (match col with Some k => k | None => tx end),
+                           clampW H (match row with Some r => r | None => ty end))
+  | None => match col, row with Some k, Some r => Some (clampW W k, clampW H r) | _, _ => None end
+  end.
+Definition arg_ok (o : option Z) : Prop := forall v, o = Some v -> 0 <= v.
+
+Lemma abs_eq W H sc t tr mf out col row : arg_ok col -> arg_ok row ->
+  exists out', move_cursor_abs TS vt_feed (C W H sc) (mkw t tr mf out) col row =
+               mkw (abs_t t col row) (tr_abs W H tr col row) mf out'.
+Proof.
+  intros Hc Hr. unfold move_cursor_abs, abs_t, tr_abs. cbv zeta.
+  destruct row as [r|]; [rewrite (wr_Eff _ _ _ _ _ _ (Eff_vpa r (Hr r eq_refl)))|];
+  (destruct col as [k|]; [rewrite (wr_Eff _ _ _ _ _ _ (Eff_cha k (Hc k eq_refl)))|]);
+  cbn [mkw w_tr]; destruct tr as [[tx ty]|];
+  cbn [C c_fix all_fixed fx_abs fx_low pick_abs mkw w_mflag w_tr set_tr set_tracked w_term w_in w_out cW cH];
+  eexists; reflexivity.
+Qed.
+
+Lemma abs_sound W H t tr mf col row : InvT W H t tr mf -> InvT W H (abs_t t col row) (tr_abs W H tr col row) mf.
+Proof.
+  intros (Hwf & HW & HH & Hc & Hf).
+  assert (G : good t (abs_t t col row)).
+  { unfold abs_t. cbv zeta.
+    assert (G1 : good t (match row with Some r => vt_goto t (vx t) r | None => t end)).
+    { destruct row; [apply goto_good|apply good_refl]; exact Hwf. }
+    destruct col; [|exact G1]. eapply good_trans; [exact G1|apply goto_good; apply G1]. }
+  destruct G as (G1 & (G2 & G3) & G4).
+  split; [exact G1|]. split; [congruence|]. split; [congruence|]. split; [|intro Hm; apply G4, Hf, Hm].
+  intros p Hp. unfold tr_abs in Hp. unfold abs_t, vt_cursor, clampW in *. cbv zeta.
+  destruct tr as [[tx ty]|].
+  - specialize (Hc _ eq_refl). injection Hc as Hx Hy. injection Hp as <-.
+    destruct col, row; unfold vt_goto, wf in *; fields; f_equal; lia.
+  - destruct col as [k|]; [|discriminate]. destruct row as [r|]; [|discriminate]. injection Hp as <-.
+    unfold vt_goto, wf in *; fields; f_equal; lia.
+Qed.
+
+(* ------------------------------------------------------------------ reset *)
+Lemma reset_inv W H sc t tr mf out : InvT W H t tr mf -> Inv W H (reset TS vt_feed (C W H sc) (mkw t tr mf out)).
+Proof.
+  intros I. pose proof I as (Hwf & HW & HH & Hc & Hf). unfold reset. destruct sc; cbn [C c_scroll].
+  - cbv zeta. rewrite (wr_Eff _ _ _ _ _ _ Eff_reset_sgr), (wr_Eff _ _ _ _ _ _ Eff_reset_margins).
+    change (fx_marg (c_fix (C W H true))) with true. change (cH (C W H true)) with H. cbv iota.
+    unfold set_mflag. cbn [mkw w_term w_in w_out w_tr w_mflag].
+    unfold scroll_up.
+    change (World (PGround, vt_decstbm t 0 0) [] ((out ++ cg_reset_sgr) ++ cg_reset_margins) tr false)
+      with (mkw (vt_decstbm t 0 0) tr false ((out ++ cg_reset_sgr) ++ cg_reset_margins)).
+    rewrite (wr_Eff _ _ _ _ _ _ (Eff_su H ltac:(unfold wf in Hwf; lia))).
+    unfold set_tr. cbn [mkw w_term w_in w_out w_tr w_mflag].
+    match goal with |- Inv _ _ (move_cursor_abs _ _ _ ?w _ _) =>
+      change w with (mkw (vt_decstbm t 0 0) None false (((out ++ cg_reset_sgr) ++ cg_reset_margins) ++ fmt_d cg_su [H])) end.
+    destruct (abs_eq W H true (vt_decstbm t 0 0) None false
+                (((out ++ cg_reset_sgr) ++ cg_reset_margins) ++ fmt_d cg_su [H]) (Some 0) (Some 0)) as [out' E];
+      [intros v [= <-]; lia|intros v [= <-]; lia|].
+    rewrite E. eexists _, _, _, _. split; [reflexivity|]. apply abs_sound.
+    destruct (decstbm_reset_full t Hwf) as (F1 & F2 & (F3 & F4)).
+    split; [exact F2|]. split; [congruence|]. split; [congruence|]. split; [intros p Hp; discriminate|intros _; exact F1].
+  - rewrite (wr_Eff _ _ _ _ _ _ Eff_reset_ris).
+    change (fx_marg (c_fix (C W H false))) with true. cbv iota.
+    unfold set_mflag, set_tr. cbn [mkw w_term w_in w_out w_tr w_mflag].
+    exists (vt_blank (vW t) (vH t)), (Some (0, 0)), false, (out ++ cg_reset_ris). split; [reflexivity|].
+    unfold wf in Hwf. unfold InvT, wf, full, vt_blank, vt_cursor. fields.
+    repeat split; try lia. intros p [= <-]. reflexivity.
+Qed.
+
+(* ------------------------------------------------------------------ printing a placeholder *)
+Definition ph_bytes (a : phargs) (lines : list (list N)) : list N :=
+  match ph_pos a with
+  | Some (px, py) => stream_abs lines px py
+  | None => stream_at_cursor lines (ph_save a) (ph_lf a) (ph_ec a - ph_sc a)
+  end.
+Definition pos_ok (a : phargs) : Prop := forall px py, ph_pos a = Some (px, py) -> 0 <= px /\ 0 <= py.
+
+Lemma ph_valid_lt a : ph_valid a = true -> ph_sc a < ph_ec a /\ ph_sr a < ph_er a.
+Proof. unfold ph_valid. intros H. lia. Qed.
+
+Lemma pp_cases W H sc t tr mf out a : wf t -> pos_ok a ->
+  let r := print_placeholder TS vt_feed (C W H sc) (mkw t tr mf out) a in
+  (snd r <> ROk /\ fst r = mkw t tr mf out) \/
+  (snd r = ROk /\ exists lines t', ph_valid a = true /\ ph_lines a = Some lines /\
+      vt_feed (PGround, t) (ph_bytes a lines) = ((PGround, t'), []) /\ good t t' /\
+      fst r = mkw t' None mf (out ++ ph_bytes a lines)).
+Proof.
+  intros Hwf Hpos. cbv zeta. unfold print_placeholder.
+  assert (Main : (let r := if negb (ph_valid a) then (mkw t tr mf out, RValueError) else
+      match ph_lines a with
+      | None => (mkw t tr mf out, RIndexError)
+      | Some lines =>
+          (if fx_ph (c_fix (C W H sc)) then set_tr TS (wr TS vt_feed (mkw t tr mf out) (ph_bytes a lines)) None
+           else wr TS vt_feed (mkw t tr mf out) (ph_bytes a lines), ROk)
+      end in
+    (snd r <> ROk /\ fst r = mkw t tr mf out) \/
+    (snd r = ROk /\ exists lines t', ph_valid a = true /\ ph_lines a = Some lines /\
+      vt_feed (PGround, t) (ph_bytes a lines) = ((PGround, t'), []) /\ good t t' /\
+      fst r = mkw t' None mf (out ++ ph_bytes a lines)))).
+  { cbv zeta. destruct (ph_valid a) eqn:V; cbn [negb]; [|left; split; [discriminate|reflexivity]].
+    destruct (ph_lines a) as [lines|] eqn:L; [|left; split; [discriminate|reflexivity]].
+    right. split; [reflexivity|]. destruct (ph_valid_lt a V) as [Hc Hr].
+    destruct (ph_lines_Eff a lines Hc L) as [F _].
+    assert (B : Ben (ph_bytes a lines)).
+    { unfold ph_bytes. destruct (ph_pos a) as [[px py]|] eqn:P.
+      - destruct (Hpos px py P) as [Hx Hy]. eapply Ben_stream_abs; eassumption.
+      - eapply Ben_stream_at_cursor; [lia|exact F]. }
+    destruct (B t Hwf) as (t' & E & G). exists lines, t'. split; [reflexivity|]. split; [reflexivity|].
+    split; [exact E|]. split; [exact G|].
+    cbn [C c_fix all_fixed fx_ph fst]. unfold wr, mkw, set_tr. cbn [w_term w_in w_out w_tr w_mflag]. rewrite E. reflexivity. }
+  unfold ph_bytes in Main. revert Main. unfold ph_bytes.
+  destruct (ph_pos a) as [[px py]|]; [destruct (ph_lf a)|]; intros Main; try exact Main.
+  left. split; [discriminate|reflexivity].
+Qed.
